@@ -14,7 +14,8 @@ CHECKS = {
         "exploration",
         "Exhaustive enumeration of both 8-bit status families (256 values each, built by constructor "
         "and by deserialisation) and of every defined unified status, plus Hypothesis-generated undefined "
-        "32-bit values, against a hand-written numeric oracle (totality, identity on unified statuses, "
+        "32-bit values and all 256 values of the four other types that response schemas deliver in a `status` field "
+        "(never OK, never raising), against a hand-written numeric oracle (totality, identity on unified statuses, "
         "OK iff success, steering codes by number). The space the property names is finite and fully covered.",
         "Numeric codes in the oracle are transcribed by hand from Silicon Labs headers; zigpy's enum machinery is trusted.",
         "exhaustive enumeration + Hypothesis value generation against a hand-written table oracle",
@@ -76,7 +77,8 @@ CHECKS = {
         "per-frame fates on a virtual clock: all 5^d assignments of {deliver, drop, detectable corruption, duplicate, stall "
         "3.5 s} to the first d frames in emission order (d=4 quick, 6 thorough) for each window, plus Hypothesis plans of up to "
         "40 overlapping sends from both ends with caller cancellations at generated instants (frame numbers wrap several "
-        "times), plus plans whose faults hit only transmissions of a cancelled payload. History oracle: deliveries on each "
+        "times), plus plans whose faults hit only transmissions of a cancelled payload, plus a fate for each of the five "
+        "transmissions of one live payload (all 5^5 assignments enumerated, generated mixtures with lost ACK/NAK). History oracle: deliveries on each "
         "side are an in-order duplicate-free subsequence of the other side's submissions, every successful send was delivered, "
         "and where no fault excuses it every non-cancelled send succeeds.",
         "Trusted: vlib/refash.RefNcp (self-tested RefNcp<->RefNcp under the same oracle on every run) and vlib/line.py. "
@@ -141,9 +143,10 @@ CHECKS = {
         "exploration",
         "Model-based history testing of bellows.multicast.Multicast through real EZSP frames into a simulated NCP whose "
         "multicast table is the model: every operation sequence up to length 3 (thorough 4) over 3 groups x {accepted, "
-        "rejected, unanswered -> command timeout} for table sizes 0..3 and two initial contents, plus Hypothesis histories of "
-        "up to 12 start-up/subscribe/unsubscribe operations over 5 groups, sizes 0..4, random initial tables and versions "
-        "4/8/13/14. After every operation: host's subscribed set equals the NCP entries with non-zero endpoint, used and free "
+        "rejected, unanswered -> command timeout} plus a host restart (fresh object re-scanning the table) for table sizes "
+        "0..3 and up to three initial contents, plus Hypothesis histories of up to 12 start-up/subscribe/unsubscribe/restart "
+        "operations over 5 groups, sizes 0..4, random initial tables whose cleared entries carry arbitrary (also live) group "
+        "ids and versions 4/8/13/14. After every operation: host's subscribed set equals the NCP entries with non-zero endpoint, used and free "
         "indices partition the table, a failed call leaves the free count unchanged, re-subscribe is write-free, a full table "
         "refuses; at the end fresh groups can be subscribed exactly as many times as the NCP has free entries.",
         "Host view is read from Multicast._multicast/_available and confirmed behaviourally; unanswered writes are not applied by the simulator.",
@@ -153,8 +156,8 @@ CHECKS = {
     "C19": (
         "fault_enumeration",
         "Every keep-alive outcome sequence of length 8 (thorough 10) over {ok, timeout, EZSP error} for protocol version 4 "
-        "and of length 6 (thorough 8) over the 5 outcomes of later versions (failure on the counter read or on the "
-        "free-buffer read) for versions 8 and 13, judged feed by feed against a two-counter model: a feed raises exactly when "
+        "and of length 6 (thorough 8) over the 6 outcomes of later versions (failure on the counter read or on the "
+        "free-buffer read, or success with the free-buffer read refused by a status) for versions 8 and 13, judged feed by feed against a two-counter model: a feed raises exactly when "
         "it is a failure and at least the 5th consecutive one, any success clears the run; plus Hypothesis sequences of up to "
         "400 feeds crossing the 180-feed read-and-clear period (and with the period patched to 3 and 5) for versions "
         "4/7/8/13/14. The simulator checks the commands seen per feed (nop on v4; readCounters or, on period multiples, "
@@ -181,7 +184,9 @@ CHECKS = {
         "exploration",
         "Real threads and real event loops: an owner loop in bellows' EventLoopThread (or a raw loop thread for the "
         "stopped-not-closed state), callers on the owner loop, the main-thread loop and a second loop thread. Hypothesis "
-        "generates scripts of 1-4 bursts of 1-200 concurrent calls over six method kinds and three owner-loop states. Every "
+        "generates scripts of 1-4 bursts of 1-200 concurrent calls over eight method kinds (coroutines returning, raising an "
+        "Exception, a non-Exception BaseException, CancelledError; plain methods; a non-callable) and three owner-loop states; "
+        "a stopped-not-closed owner loop is run again and must then execute every plain call queued meanwhile. Every "
         "wrapped body records its thread: it must be the owner's; coroutine results/exceptions must reach the caller unchanged "
         "and resume on the caller's loop; cross-thread plain calls return None at once, run exactly once in per-caller FIFO "
         "order, non-None returns and raised exceptions surface in the owner loop's exception handler; owner-loop calls run "
@@ -195,12 +200,14 @@ CHECKS = {
         "Gateway + AshProtocol on a virtual clock against a scripted peer: all 256 RSTACK codes x {in time, before the "
         "request, after the 5 s timeout, twice} x {reset(), wait_for_startup_reset()}; all 64 prior-traffic counter states; "
         "ERROR frames with every error code; connection_lost(exc) / connection_lost(None) / EOF at several instants, also "
-        "after a non-software RSTACK and with a second reset() pending; plus Hypothesis schedules of up to 4 reactions. "
+        "after a non-software RSTACK, with a second reset() pending, and after an EOF that preceded the request; 1-3 sends "
+        "queued behind an in-flight frame acknowledged before / together with the RSTACK; plus Hypothesis schedules of up to 4 reactions. "
         "Checked: request bytes are exactly 1A C0 38 BC 7E at the request instant; completion iff RSTACK(0x0B) arrives after "
         "the request and before 5 s, else TimeoutError (reset) / still pending (start-up waiter) / the connection error; every "
         "other RSTACK code and every ERROR yields exactly one enter_failed_state(code); afterwards the next host DATA has "
-        "frmNum 0/ackNum 0 and a peer DATA 0 is accepted; no waiter survives a connection loss.",
-        "A send in flight at handshake time is generated and reported as an observation only (outside the stated quantifier).",
+        "frmNum 0/ackNum 0 (also for sends that were queued during the handshake, numbered consecutively) and a peer DATA 0 "
+        "is accepted; no waiter survives a connection loss.",
+        "A send in flight and still unacknowledged at handshake time is generated and reported as an observation only (outside the stated quantifier).",
         "fault enumeration over codes, arrival instants, counter states and loss points + Hypothesis schedules on a virtual clock",
         "DESIGN.md 4/C11",
     ),
@@ -223,7 +230,8 @@ CHECKS = {
         "Crash-point enumeration on the full stack in virtual time: for the workloads idle / one command in flight / four "
         "queued commands of mixed priority / reset in progress / start-up, the fault-free run's wire events are counted and "
         "the run is repeated with a failure injected before and after each of them for each kind {ERROR 0x51, ERROR 0x80, "
-        "RSTACK power-on, RSTACK watchdog, NCP silent, connection_lost(exc), EOF} and with a deliberate close() as control; "
+        "RSTACK power-on, RSTACK watchdog, NCP silent, connection_lost(exc), EOF} and with a deliberate close() as control, "
+        "each with and without stray XOFF / XOFF+XON bytes from the NCP beforehand; "
         "plus Hypothesis cases with generated injection instants, NCP versions and line faults. Checked: at least one "
         "_reset_controller_application callback after every reported failure (for silence once a DATA frame was written "
         "afterwards), none after a deliberate close, EZSP stopped, a new command raises at once and writes nothing, nothing "
@@ -234,10 +242,11 @@ CHECKS = {
     ),
     "C13": (
         "exploration",
-        "For every protocol version 4..14, incomingMessageHandler and trustCenterJoinHandler frames are encoded byte by byte "
+        "For every protocol version 4..14 and for NCP versions above 14 (served with the v14 tables), incomingMessageHandler and trustCenterJoinHandler frames are encoded byte by byte "
         "with hand-written field tables (pre-v14 and v14 orders, independent of bellows' tables and of the unpacking code) "
         "from Hypothesis-generated contents (all message types incl. undefined, APS fields, signed RSSI extremes, payload "
-        "0..100 bytes, Xiaomi/Lumi IEEE prefixes, every device-update x decision combination) and pushed through "
+        "0..100 bytes, Xiaomi/Lumi IEEE prefixes, every device-update x decision combination; zigpy's device table empty or "
+        "holding the sender under a stale short address / another device on the sender's address) and pushed through "
         "EZSP.frame_received into a real ControllerApplication with recorders in place of zigpy's entry points. Exactly one "
         "packet for unicast/multicast/broadcast with source, endpoints, profile, cluster, APS sequence, payload, LQI, RSSI "
         "equal to the encoded ones and destination own-NWK/group/broadcast; none for other types; join/leave/nothing as stated.",
@@ -251,8 +260,8 @@ CHECKS = {
         "Hypothesis plans of 1-6 overlapping requests to distinct devices (unicast plain / source-routed / extended-timeout, "
         "IEEE-addressed known and unknown, multicast, broadcast) with per-attempt enqueue statuses (accepted, each busy code of "
         "the version's status family, refusals incl. undefined codes) and per-request confirmation behaviour (success, failure, "
-        "none, duplicate, before the enqueue reply, wrong tag, wrong destination, wrong-then-right, late) plus unsolicited "
-        "confirmations. A reference computes outcome, attempt count and retry spacing from the plan; TimeoutError not before "
+        "none, duplicate, before the enqueue reply, wrong tag, wrong destination or table index, wrong-then-own-failure, "
+        "wrong-then-right, late; foreign confirmations carry any outgoing-message type) plus unsolicited confirmations. A reference computes outcome, attempt count and retry spacing from the plan; TimeoutError not before "
         "120 s after acceptance; a successful unicast never returns before its own (destination, tag) success confirmation; "
         "no pending entry is left; no other request's frame lies between a request's first set-up frame and its send frame.",
         "Application built with the zigpy.util.Requests shim (entry removal is the shim's context manager); confirmations encoded by hand-written layouts.",
@@ -264,7 +273,8 @@ CHECKS = {
         "write_network_info() followed by load_network_info(load_devices=True) on a real ControllerApplication against a "
         "stateful simulated NCP (reset with version re-negotiation, leave, form, stack-status callbacks, initial/current "
         "security state, key export in the pre-v13 and v13/v14 forms, link-key table, child table, NV3 and manufacturing "
-        "tokens) for every protocol version 4..14 with Hypothesis-generated network/node information and NCP capabilities. "
+        "tokens) for every protocol version 4..14 with Hypothesis-generated network/node information and NCP capabilities, the "
+        "NCP factory-fresh or still holding an earlier network (other keys, non-zero counters, link keys, children). "
         "Read-back must equal what was written for PAN, extended PAN, channel, mask, update id, network key and sequence, "
         "frame counter (v5+), trust-centre link key incl. the hashed form, link keys as a set of (partner, key), children and "
         "their NWK addresses (v9+); the setInitialSecurityState argument the simulator recorded must carry exactly the given "
